@@ -260,15 +260,20 @@ func (m *MdnsManager) AnnounceMdnsEntry() error {
 
 	serviceName := m.serviceName
 
-	if err := m.mdnsProvider.Announce(serviceName, m.port, txt); err != nil {
+	err := m.mdnsProvider.Announce(serviceName, m.port, txt)
+
+	// the announcement is requested from now on, even if the provider could not publish it
+	// right now: a provider that reconnects (avahi) publishes the most recently requested
+	// data once its daemon is back, so a following UnannounceMdnsEntry or SetAutoAccept
+	// has to reach it
+	m.mux.Lock()
+	m.setIsServiceAnnounce(true)
+	m.mux.Unlock()
+
+	if err != nil {
 		logging.Log().Debug("mdns: failure announcing service", err)
 		return err
 	}
-
-	m.mux.Lock()
-	defer m.mux.Unlock()
-
-	m.setIsServiceAnnounce(true)
 
 	return nil
 }
